@@ -123,6 +123,58 @@ impl CostModel {
         Ok(pos_cost)
     }
 
+    /// Calculates the total cost of accessing and traversing an edge: the vehicle cost of
+    /// the whole change of state, the network cost of the edge and, when the edge is
+    /// reached from another edge, the network cost of that edge pair (turn).
+    ///
+    /// # Arguments
+    ///
+    /// * `access` - the (previous, next) edge pair of the access, if the edge was reached from an edge
+    /// * `edge` - edge traversed
+    /// * `prev_state` - state of the search before accessing this edge
+    /// * `next_state` - state of the search at the end of this edge
+    ///
+    /// # Returns
+    ///
+    /// Either the strictly positive total cost or an error.
+    pub fn edge_cost(
+        &self,
+        access: Option<(&Edge, &Edge)>,
+        edge: &Edge,
+        prev_state: &[StateVar],
+        next_state: &[StateVar],
+    ) -> Result<Cost, CostModelError> {
+        let vehicle_cost = cost_ops::calculate_vehicle_costs(
+            (prev_state, next_state),
+            &self.feature_indices,
+            &self.weights,
+            &self.vehicle_rates,
+            &self.cost_aggregation,
+        )?;
+        let network_cost = cost_ops::calculate_network_traversal_costs(
+            (prev_state, next_state),
+            edge,
+            &self.feature_indices,
+            &self.weights,
+            &self.network_rates,
+            &self.cost_aggregation,
+        )?;
+        let network_access_cost = match access {
+            None => Cost::ZERO,
+            Some(edge_pair) => cost_ops::calculate_network_access_costs(
+                (prev_state, next_state),
+                edge_pair,
+                &self.feature_indices,
+                &self.weights,
+                &self.network_rates,
+                &self.cost_aggregation,
+            )?,
+        };
+        let total_cost = vehicle_cost + network_cost + network_access_cost;
+        let pos_cost = Cost::enforce_strictly_positive(total_cost);
+        Ok(pos_cost)
+    }
+
     /// Calculates the cost of accessing some destination edge when coming
     /// from some previous edge.
     ///
